@@ -49,12 +49,19 @@ class Recorder:
 
     def __init__(self, storage):
         self.ids = []
+        self.events = []
         self._orig = storage.notify_all_connected
         storage.notify_all_connected = self._wrapped
 
     async def _wrapped(self, event):
         self.ids.append(event.id)
+        self.events.append(event)
         return await self._orig(event)
+
+    def take_events(self):
+        out, self.events = self.events, []
+        self.ids = []
+        return out
 
     def take(self):
         out, self.ids = self.ids, []
@@ -117,7 +124,7 @@ def wq_abstract(st, uni):
             continue
         op, args = task
         if op == "add":
-            out.append(["add", uni.sym_id(args[0].id)])
+            out.append(["add", uni.sym_event(args[0]) or "?" + args[0].id[:16]])
         elif op == "del":
             out.append(["del", uni.sym_id(args[0])])
         else:
@@ -126,8 +133,31 @@ def wq_abstract(st, uni):
 
 
 async def dump_ids(st, backend, uni):
-    ids = await C.sql_dump_ids(st) if backend == "sql" else C.lmdb_dump_ids(st)
-    return set(uni.sym_id(i) for i in ids)
+    """the stored events as universe symbols; an event is recognised by equality in all seven fields"""
+    out = set()
+    if backend == "sql":
+        import sqlalchemy as sa
+        from nostr_relay.storage.db import event_from_tuple
+
+        async with st.db.connect() as conn:
+            rows = (await conn.execute(sa.text("SELECT id, created_at, kind, pubkey, tags, sig, content FROM events"))).fetchall()
+        for r in rows:
+            try:
+                sym = uni.sym_event(event_from_tuple(r))
+            except Exception:
+                sym = None
+            out.add(sym if sym is not None else "?" + r[0].hex()[:16])
+    else:
+        from nostr_relay.storage import kv
+
+        for k, v in C.lmdb_dump_keys(st):
+            if k[:1] == b"\x00" and len(k) == 33:
+                try:
+                    sym = uni.sym_event(kv.decode_event(kv.unpackb(v, use_list=False)))
+                except Exception:
+                    sym = None
+                out.add(sym if sym is not None else "?" + k[1:].hex()[:16])
+    return out
 
 
 def sql_skeleton(text):
@@ -310,7 +340,7 @@ async def run_script(st, backend, uni, script, log_errors=None, keydump=None):
                 if log_errors is not None:
                     log_errors.append((sym, reason))
             lines.append({"a": "Submit", "id": sym, "ok": ok, "post": await dump_ids(st, backend, uni),
-                          "q": wq_abstract(st, uni), "bc": [uni.sym_id(i) for i in rec.take()], "_reason": reason})
+                          "q": wq_abstract(st, uni), "bc": [uni.sym_event(e) or "?" + e.id[:16] for e in rec.take_events()], "_reason": reason})
         elif kind == "writer":
             if backend == "lmdb" and st._verif_gate.items:
                 writer_step(st, 1)
